@@ -16,6 +16,16 @@ import (
 	"github.com/fsnotify/fsnotify"
 )
 
+// safe runs f and reports a panic as the observation "PANIC" instead of crashing the harness
+func safe(f func() string) (out string) {
+	defer func() {
+		if r := recover(); r != nil {
+			out = "PANIC"
+		}
+	}()
+	return f()
+}
+
 func hx(s string) string {
 	if s == "" {
 		return "-"
@@ -69,8 +79,8 @@ func main() {
 				}
 			}
 			for _, h := range house {
-				e := tr.NewEvent("n", m|h, 0)
-				fmt.Fprintf(w, "newevent %d %d\n", m|h, uint32(e.Op))
+				mm := m | h
+				fmt.Fprintf(w, "newevent %d %s\n", mm, safe(func() string { return fmt.Sprint(uint32(tr.NewEvent("n", mm, 0).Op)) }))
 			}
 		}
 		n := 2000
@@ -79,8 +89,7 @@ func main() {
 		}
 		for i := 0; i < n; i++ {
 			m := rng.Uint32()
-			e := tr.NewEvent("n", m, 0)
-			fmt.Fprintf(w, "newevent %d %d\n", m, uint32(e.Op))
+			fmt.Fprintf(w, "newevent %d %s\n", m, safe(func() string { return fmt.Sprint(uint32(tr.NewEvent("n", m, 0).Op)) }))
 		}
 		// 2. request side: AddWith with every subset of the nine operations x noFollow, kernel mask from fdinfo
 		dir, err := os.MkdirTemp("", "verif-tab")
@@ -143,7 +152,8 @@ func main() {
 	if strings.Contains(*what, "c16") {
 		// Op.String over all 2^16 low values, plus sampled high values
 		for o := 0; o < 1<<16; o++ {
-			fmt.Fprintf(w, "opstring %d %s\n", o, hx(fsnotify.Op(o).String()))
+			o := o
+			fmt.Fprintf(w, "opstring %d %s\n", o, safe(func() string { return hx(fsnotify.Op(o).String()) }))
 		}
 		n := 5000
 		if *tier == "thorough" {
@@ -151,7 +161,7 @@ func main() {
 		}
 		for i := 0; i < n; i++ {
 			o := rng.Uint32()
-			fmt.Fprintf(w, "opstring %d %s\n", o, hx(fsnotify.Op(o).String()))
+			fmt.Fprintf(w, "opstring %d %s\n", o, safe(func() string { return hx(fsnotify.Op(o).String()) }))
 		}
 		// Op.Has / Event.Has: all 2^10 x all 2^10 low values, every single-bit probe against sampled words
 		for o := 0; o < 1<<10; o++ {
@@ -181,7 +191,7 @@ func main() {
 			for _, fr := range names {
 				for _, op := range ops {
 					e := fsnotify.VerifMakeEvent(nm, fsnotify.Op(op), fr)
-					fmt.Fprintf(w, "evstring %s %d %s %s %s %s\n", hx(nm), op, hx(fr), hx(e.String()),
+					fmt.Fprintf(w, "evstring %s %d %s %s %s %s\n", hx(nm), op, hx(fr), safe(func() string { return hx(e.String()) }),
 						hx(strconv.Quote(nm)), hx(strconv.Quote(fr)))
 				}
 			}
